@@ -138,7 +138,14 @@ Definition vis_eq (p q : params) : bool :=
    4 a request_uri was honoured after it expired
    5 a request_uri started a second authorization
    6 under a FAPI profile the session's parameters differ from the object's / the pushed ones
-   7 a request without object was served although request objects are required *)
+   7 a request without object was served although request objects are required
+   8 a navigation (redirect or auto-submitted form, success or error) targeted a redirect_uri that is neither
+     registered for the client nor the one of the pushed request being redeemed, or a session was started
+     (interaction page served) that will navigate to such a URI (property C02's JAR half)
+   Clauses 1 and 2 also fire when the answer is a redirected ERROR: the resolver refuses an object that is
+   not authentic with a local error, so any navigation at all means its parameters (redirect_uri, state)
+   were used. *)
+Definition is_nav (x : obs) : bool := match x with Out (ONav _ _ _) => true | _ => false end.
 Definition obj_clause (cfg : config) (jc : jcfg) (c : client) (jcl : jclient) (o : req_object) : N :=
   if jar_ok (cf_profile cfg) jc (c_id c) jcl o then 0
   else match ro_sig o with SigEmpty => 2 | _ => 1 end.
@@ -146,7 +153,7 @@ Definition obj_clause (cfg : config) (jc : jcfg) (c : client) (jcl : jclient) (o
 Definition clause_C07 (cfg : config) (jx : jworld) (static : list client) (pushed_ : list pushed) (now : Z)
     (o : jop) (x : jobs) : N :=
   match x with JObs y eff =>
-  if negb (is_success y) then 0 else
+  if negb (orb (is_success y) (match o with JAuthorize _ => is_nav y | _ => false end)) then 0 else
   match o with
   | JAuthorize q =>
       let r := jq_req q in
@@ -155,6 +162,7 @@ Definition clause_C07 (cfg : config) (jx : jworld) (static : list client) (pushe
       | Some c =>
         let jcl := jclient_of (jx_clients jx) (c_id c) in
         if should_use_par cfg (ar_params r) c then
+          if negb (is_success y) then 0 else
           match find_pushed (p_request_uri (ar_params r)) pushed_ with
           | None => 0
           | Some pu =>
@@ -170,12 +178,12 @@ Definition clause_C07 (cfg : config) (jx : jworld) (static : list client) (pushe
           | JValue ob | JRef _ (Some ob) =>
               match obj_clause cfg (jx_cfg jx) c jcl ob with
               | 0 => if negb (ideq (ro_client_id ob) (c_id c)) then 1
-                     else if is_fapi (cf_profile cfg) then
+                     else if andb (is_success y) (is_fapi (cf_profile cfg)) then
                        match eff with Some (_, p) => if vis_eq p (ro_params ob) then 0 else 6 | None => 0 end
                      else 0
               | k => k
               end
-          | _ => 7
+          | _ => if is_success y then 7 else 0
           end
         else 0
       end
@@ -208,6 +216,46 @@ Definition clause_C07 (cfg : config) (jx : jworld) (static : list client) (pushe
   | JBase _ => 0
   end end.
 
+(* clause 8: where a navigation may go.  The registered URIs of the client; where PAR admits unregistered
+   URIs, also the redirect_uri of the pushed request this very request redeems, if this client pushed it. *)
+Definition nav_target_ok (cfg : config) (c : client) (pushed_ : list pushed) (outer : params) (u : string) : bool :=
+  orb (redirect_allowed c u)
+      (andb (cf_par_unregistered cfg)
+         (match find_pushed (p_request_uri outer) pushed_ with
+          | Some pu => andb (negb (is_nil (p_request_uri outer)))
+                         (andb (ideq (pu_client pu) (c_id c))
+                            (andb (negb (is_empty u)) (seqb (p_redirect (pu_params pu)) u)))
+          | None => false
+          end)).
+
+Definition nav_clause (cfg : config) (static : list client) (pushed_ : list pushed) (o : jop) (x : jobs) : N :=
+  match x with
+  | JObs (Out (ONav _ u _)) _ =>
+      let chk (r : areq) :=
+        match find_static (ar_client r) static with
+        | Some c => if nav_target_ok cfg c pushed_ (ar_params r) u then 0 else 8
+        | None => 8
+        end in
+      match o with
+      | JAuthorize q => chk (jq_req q)
+      | JBase (OpAuthorize r) => chk r
+      | _ => 0
+      end
+  | JObs (Out (OPage _)) (Some (_, p)) =>
+      (* the interaction page was served: the session in progress will navigate to its redirect_uri *)
+      let chk (r : areq) :=
+        match find_static (ar_client r) static with
+        | Some c => if nav_target_ok cfg c pushed_ (ar_params r) (p_redirect p) then 0 else 8
+        | None => 8
+        end in
+      match o with
+      | JAuthorize q => chk (jq_req q)
+      | JBase (OpAuthorize r) => chk r
+      | _ => 0
+      end
+  | _ => 0
+  end.
+
 Definition learn7 (cfg : config) (static : list client) (pushed_ : list pushed) (now : Z) (o : jop) (x : jobs) : list pushed :=
   match x with JObs y _ =>
   match o, y with
@@ -227,9 +275,13 @@ Fixpoint drive7 (cfg : config) (jx : jworld) (static : list client) (pushed_ : l
     (ops : list jop) (xs : list jobs) : N :=
   match ops, xs with
   | o :: ops', x :: xs' =>
-      match clause_C07 cfg jx static pushed_ now o x with
-      | 0 => drive7 cfg jx static (learn7 cfg static pushed_ now o x) (S k)
-               (match o with JBase (OpTick d) => (now + d)%Z | _ => now end) ops' xs'
+      match nav_clause cfg static pushed_ o x with
+      | 0 =>
+        match clause_C07 cfg jx static pushed_ now o x with
+        | 0 => drive7 cfg jx static (learn7 cfg static pushed_ now o x) (S k)
+                 (match o with JBase (OpTick d) => (now + d)%Z | _ => now end) ops' xs'
+        | c => viol7 c k
+        end
       | c => viol7 c k
       end
   | _, _ => 0
